@@ -31,6 +31,7 @@ type FuncContract struct {
 	Ensures  []*Clause
 	Maintains []*Clause
 	Asserts  map[int][]*Clause
+	NamedAsserts map[string][]*Clause
 	Modifies []string
 	Loops    map[int]*LoopSpec
 	Flags    map[string]string // nooverflow, may_panic, inline, deterministic, mode, bytes, trusted, pure
@@ -259,13 +260,22 @@ func (cs *ContractSet) LoadFile(path, pkgPath string) error {
 			}
 		case "assert":
 			k := strings.Index(l.rest, ":")
-			n, err := strconv.Atoi(strings.TrimSpace(l.rest[:k]))
-			if err != nil {
-				return fmt.Errorf("%s:%d: bad assert ordinal", path, l.line)
-			}
+			where := strings.TrimSpace(l.rest[:k])
 			c, err := mkClause(cline{rest: strings.TrimSpace(l.rest[k+1:]), line: l.line})
 			if err != nil {
 				return err
+			}
+			if f := strings.Fields(where); len(f) == 2 && (f[0] == "after" || f[0] == "before") {
+				// anchored at the top-level statement that first defines/assigns the named variable
+				if cur.NamedAsserts == nil {
+					cur.NamedAsserts = map[string][]*Clause{}
+				}
+				cur.NamedAsserts[f[0]+":"+f[1]] = append(cur.NamedAsserts[f[0]+":"+f[1]], c)
+				break
+			}
+			n, err := strconv.Atoi(where)
+			if err != nil {
+				return fmt.Errorf("%s:%d: bad assert position %q", path, l.line, where)
 			}
 			cur.Asserts[n] = append(cur.Asserts[n], c)
 		case "spec":
